@@ -1,5 +1,6 @@
 import Cirbo.Model.Mutate2
 import Cirbo.Generated.GenTables
+import Cirbo.Spec.Bool
 /-!
 # Generator programs
 
@@ -13,10 +14,14 @@ compared with the code.
 namespace Cirbo
 open GateType
 
+/-- what every generator's new gate satisfies: not an INPUT, and an arity its type accepts (the
+programs below can only add such gates: `add` carries the evidence) -/
+def tyOk (ty : GateType) (n : Nat) : Bool := ty != INPUT && arityOk ty n
+
 inductive Prog (α : Type) where
   | pure (a : α)
   | fresh (restr : List Label) (k : Label → Prog α)
-  | add (g : Gate) (k : Prog α)
+  | add (g : Gate) (ok : tyOk g.ty g.ops.length = true) (k : Prog α)
   | mark (l : Label) (k : Prog α)
   | fail (e : String)
 
@@ -25,7 +30,7 @@ namespace Prog
 def bind {α β} : Prog α → (α → Prog β) → Prog β
   | .pure a, f => f a
   | .fresh r k, f => .fresh r (fun l => (k l).bind f)
-  | .add g k, f => .add g (k.bind f)
+  | .add g ok k, f => .add g ok (k.bind f)
   | .mark l k, f => .mark l (k.bind f)
   | .fail e, _ => .fail e
 
@@ -55,7 +60,7 @@ def Prog.run {α} : Prog α → GSt → R (α × GSt)
     match freshLoop s.c r (s.c.gates.length + r.length + 1) s.ctr with
     | .error e => .error e
     | .ok (l, ctr') => (k l).run ⟨s.c, ctr'⟩
-  | .add g k, s =>
+  | .add g _ k, s =>
     match s.c.addGate g with
     | .error e => .error e
     | .ok c' => k.run ⟨c', s.ctr⟩
@@ -86,14 +91,18 @@ def t0101 : TT := (false, true, false, true)
 def t1111 : TT := (true, true, true, true)
 
 /-- a fresh gate of the given type (`generate_random_label` + `emplace_gate`) -/
-def emit (ty : GateType) (ops : List Label) : Prog Label :=
-  .fresh [] (fun l => .add ⟨l, ty, ops⟩ (.pure l))
+def emit (ty : GateType) (ops : List Label) (ok : tyOk ty ops.length = true) : Prog Label :=
+  .fresh [] (fun l => .add ⟨l, ty, ops⟩ ok (.pure l))
+
+/-- every type in the regenerated `binary_tt_to_type` table is a binary gate type -/
+theorem ttType_ok {a b c d : Bool} {ty : GateType} (h : Gen.ttType a b c d = some ty) : tyOk ty 2 = true := by
+  cases a <;> cases b <;> cases c <;> cases d <;> simp only [Gen.ttType, Option.some.injEq] at h <;> subst h <;> rfl
 
 /-- `add_gate_from_tt(circuit, left, right, operation)` -/
 def emitTT (x y : Label) (op : TT) : Prog Label :=
-  match Gen.ttType op.1 op.2.1 op.2.2.1 op.2.2.2 with
+  match h : Gen.ttType op.1 op.2.1 op.2.2.1 op.2.2.2 with
   | none => .fresh [] (fun _ => .fail "Py:KeyError")
-  | some ty => emit ty [x, y]
+  | some ty => emit ty [x, y] (ttType_ok h)
 
 def revIf (l : List Label) (bigEndian : Bool) : List Label := if bigEndian then l.reverse else l
 
@@ -300,30 +309,36 @@ def addSumNBits (ins : List Label) (basis : BasisArg) (bigEndian : Bool) : Prog 
     let r ← (match b with | .xaig => addSumNBitsXaig l | .aig => addSumNBitsAig l)
     pure (revIf r bigEndian)
 
+/-- the result of a 2- or 3-bit count has two bits (Python's `d[i][0]`, `d[i][1]`) -/
+def sumPair : List Label → Prog (Label × Label)
+  | [x, y] => pure (x, y)
+  | _ => .fail "Py:IndexError"
+
+/-- `for i in range(1, n): d[i] = add_sum_n_bits([d[i-1][1], a[i]] + ([b[i]] if i < m else []))` -/
+def sumChain : List Label → List Label → List Label → Label → Prog (List Label × Label)
+  | [], _, outs, carry => pure (outs, carry)
+  | x :: xs, ys, outs, carry => do
+    let inp := match ys with
+      | y :: _ => [carry, x, y]
+      | [] => [carry, x]
+    let (s, c) ← sumPair (← addSumNBits inp (.enum .xaig) false)
+    sumChain xs ys.tail (outs ++ [s]) c
+
+/-- the carry chain of `add_sum_two_numbers` on little-endian operands, longer operand first -/
+def sumTwoCore (la lb : List Label) : Prog (List Label) :=
+  match la, lb with
+  | x :: xs, y :: ys => do
+    let (s0, c0) ← sumPair (← addSumNBits [x, y] (.enum .xaig) false)
+    let (outs, carry) ← sumChain xs ys [s0] c0
+    pure (outs ++ [carry])
+  | _, _ => .fail "Py:IndexError"
+
 /-- `add_sum_two_numbers` (the carry chain over `add_sum_n_bits` with the default basis) -/
 def addSumTwoNumbers (a b : List Label) (bigEndian : Bool) : Prog (List Label) := do
   let a0 := revIf a bigEndian
   let b0 := revIf b bigEndian
-  let (la, lb) := if a0.length < b0.length then (b0, a0) else (a0, b0)
-  match la, lb with
-  | x :: xs, y :: ys => do
-    let (s0, c0) ← pair2' (← addSumNBits [x, y] (.enum .xaig) false)
-    let (outs, carry) ← chain xs ys [s0] c0
-    pure (revIf (outs ++ [carry]) bigEndian)
-  | _, _ => .fail "Py:IndexError"
-where
-  /-- the result of a 2- or 3-bit count has two bits whenever it has at least two inputs -/
-  pair2' : List Label → Prog (Label × Label)
-    | [x, y] => pure (x, y)
-    | _ => .fail "Py:IndexError"
-  chain : List Label → List Label → List Label → Label → Prog (List Label × Label)
-    | [], _, outs, carry => pure (outs, carry)
-    | x :: xs, ys, outs, carry => do
-      let inp := match ys with
-        | y :: _ => [carry, x, y]
-        | [] => [carry, x]
-      let (s, c) ← pair2' (← addSumNBits inp (.enum .xaig) false)
-      chain xs ys.tail (outs ++ [s]) c
+  let r ← (if a0.length < b0.length then sumTwoCore b0 a0 else sumTwoCore a0 b0)
+  pure (revIf r bigEndian)
 
 /-- `add_sum_two_numbers_with_shift` -/
 def addSumTwoNumbersWithShift (shift : Nat) (a b : List Label) (bigEndian : Bool) : Prog (List Label) := do
@@ -376,14 +391,18 @@ def wReduce2 (blk2 : List Label → Prog (List Label)) (lvl : Nat) : List Label 
   | nowR, single => pure (nowR, single)
 
 /-- one level in the simple (naive / AIG) scheme -/
-def wSimpleLevel (b : Basis) (lvl : Nat) (nowSingles : List Label) (single : List (Nat × Label)) :
-    Prog (Label × List (Nat × Label)) := do
-  let blk3 := match b with | .aig => addSum3Aig | .xaig => addSum3
-  let blk2 := match b with | .aig => addSum2Aig | .xaig => addSum2
+def wSimpleLevelWith (blk3 blk2 : List Label → Prog (List Label)) (lvl : Nat) (nowSingles : List Label)
+    (single : List (Nat × Label)) : Prog (Label × List (Nat × Label)) := do
   let (n1, s1) ← wReduce3 blk3 lvl nowSingles.length nowSingles.reverse single
   let (n2, s2) ← wReduce2 blk2 lvl n1 s1
   let r ← firstOfRev n2
   pure (r, s2)
+
+def wSimpleLevel (b : Basis) (lvl : Nat) (nowSingles : List Label) (single : List (Nat × Label)) :
+    Prog (Label × List (Nat × Label)) :=
+  match b with
+  | .aig => wSimpleLevelWith addSum3Aig addSum2Aig lvl nowSingles single
+  | .xaig => wSimpleLevelWith addSum3 addSum2 lvl nowSingles single
 
 def minLevel (single : List (Nat × Label)) (pairs : List (Nat × Label × Label)) (inf : Nat) : Nat :=
   min (match single with | x :: _ => min x.1 inf | [] => inf) (match pairs with | x :: _ => min x.1 inf | [] => inf)
